@@ -1033,7 +1033,7 @@ class Parser(AttrParser):
         )
 
     def _parse_external_resources(self) -> None:
-        raise NotImplementedError("Currently only dialect resources are supported")
+        self.raise_error("Currently only dialect resources are supported")
 
     def _parse_metadata_element(self) -> None:
         resource_type = self._parse_token(
